@@ -33,6 +33,14 @@ WIDE = (
 )
 
 
+WIDE_LOOPS = (
+    ((1, 2), (1, 3, 4), (3, 4), (5,), (5,), ()),
+    ((1,), (1, 2, 3), (4,), (4,), ()),
+    ((1, 2), (2, 1, 3), (3, 4), (4,), ()),
+    ((1, 2), (3,), (2, 3, 4), (4,), ()),
+)
+
+
 def arcs_of(scfg):
     return {k: tuple(b._jump_targets) for k, b in scfg.graph.items()}
 
@@ -336,6 +344,9 @@ def run(tier: str, seed: int):
     # pipeline, inside the domain of the edit primitives)
     for g in WIDE:
         units.append((g, False, 1 if tier == "quick" else 2, 3))
+    # loops whose single latch has two exits: after loop restructuring the loop REGION has two outgoing targets
+    for g in WIDE_LOOPS:
+        units.append((g, True, 1 if tier == "quick" else 2, 3))
     acc = Acc()
     for r in shard_map(_work, rotate(units, seed)):
         acc.merge(r)
